@@ -269,12 +269,12 @@ class Registry(BfsSuite):
     def __init__(self, depth):
         BfsSuite.__init__(
             self, 'registry', depth,
-            rule="every history of <= %d operations from {calendar(k, H), calendar(k), calendar(Calendar(k, H)), calendar(<object returned "
-                 "1 or 2 operations ago>)} over keys {'A','B',None} and holiday sets {H1={03-29,04-01}, H2={04-01,04-02}, {}}, states merged "
-                 "on (registry contents incl. populated tables, model, the last two returned objects); after every operation is_bday on 4 "
-                 "distinguishing days and add(t, 2) for 3 days t on the returned object and on every registered key with specified "
-                 "holidays; non-trivial = histories that registered two different holiday sets (same key: overwrite, other key: cross-talk)" % depth,
-            bounds=dict(keys=3, holiday_sets=3, ops_per_state=23))
+            rule="every history of <= %d operations from {calendar(k, H), calendar(k, H, t0, t1), calendar(k), calendar(Calendar(k, H, t0, t1)), "
+                 "calendar(<object returned 1 or 2 operations ago>)} over keys {'A','B',None} and holiday sets {H1={03-29,04-01}, "
+                 "H2={04-01,04-02}, {}}, states merged on (registry contents incl. range and populated tables, model, the last two returned "
+                 "objects); after every operation is_bday on 4 distinguishing days, add(t, 1), add(t, -1) and (for objects on a short range) "
+                 "add(t, 2) for 3 days t, on the returned object and on every registered key with specified holidays; non-trivial = histories that registered two different holiday sets (same key: overwrite, other key: cross-talk)" % depth,
+            bounds=dict(keys=3, holiday_sets=3, ops_per_state=32))
 
     def initial(self):
         return [[]]
@@ -282,6 +282,7 @@ class Registry(BfsSuite):
     def ops(self, history):
         res = [['get', k] for k in KEYS]
         res += [['reg', k, h] for k in KEYS for h in ('H1', 'H2', 'E')]
+        res += [['regr', k, h] for k in KEYS for h in ('H1', 'H2', 'E')]
         res += [['obj', k, h] for k in KEYS for h in ('H1', 'H2', 'E')]
         res += [['back', j] for j in (1, 2) if len(history) >= j]
         return res
@@ -311,9 +312,16 @@ class Registry(BfsSuite):
                     val = model[k]
                 elif kind == 'reg':
                     k, h = op[1], op[2]
-                    what = 'calendar(%r, %s, t0, t1)' % (k, h)
+                    what = 'calendar(%r, %s)' % (k, h)
                     val = frozenset(HSETS[h])
                     cls = 'reg-new' if k not in model else ('reg-same' if model[k] == val else 'reg-overwrite')
+                    o = calendar(k, list(HSETS[h]))
+                    model[k] = val
+                elif kind == 'regr':
+                    k, h = op[1], op[2]
+                    what = 'calendar(%r, %s, t0=2023-10-02, t1=2024-09-30)' % (k, h)
+                    val = frozenset(HSETS[h])
+                    cls = 'regr-new' if k not in model else ('regr-same' if model[k] == val else 'regr-overwrite')
                     o = calendar(k, list(HSETS[h]), t0=R_T0, t1=R_T1)
                     model[k] = val
                 elif kind == 'obj':
@@ -349,7 +357,12 @@ class Registry(BfsSuite):
                     continue
                 try:
                     obj = target if view == 'returned' else calendar(target)
-                    obs = [obj.is_bday(d) for d in OBS_DAYS] + [obj.add(t, 2) for t in OBS_ADD]
+                    obs = [obj.is_bday(d) for d in OBS_DAYS] + [obj.add(t, n) for n in (1, -1) for t in OBS_ADD]
+                    # the indexed path needs the lookup tables: 0.5 s to build on the default 1900..2300 range, so it is
+                    # observed on every object whose own range (read as data) is short
+                    short = (obj.t1 - obj.t0).days < 1100
+                    if short:
+                        obs += [obj.add(t, 2) for t in OBS_ADD]
                 except Exception as e:
                     if last:
                         out.call()
@@ -358,9 +371,9 @@ class Registry(BfsSuite):
                     return out, None, False
                 if last:
                     out.call(1 + len(obs))
-                    exp = _expected_obs(mval)
+                    exp = _expected_obs(mval)[:len(obs)]
                     if obs != exp:
-                        out.viol('registry-stale', 'history %s: %s should reflect holidays %s: is_bday%s + add(t,2)%s expected %s observed %s' % (
+                        out.viol('registry-stale', 'history %s: %s should reflect holidays %s: is_bday%s + add(t,n)%s n=1,-1,2 expected %s observed %s' % (
                             history, vlabel, sorted(x.strftime('%m-%d') for x in mval), [d.strftime('%m-%d') for d in OBS_DAYS],
                             [d.strftime('%m-%d') for d in OBS_ADD], _show(exp), _show(obs)),
                             op=kind, view=view, part='is_bday' if obs[:len(OBS_DAYS)] != exp[:len(OBS_DAYS)] else 'add')
@@ -382,7 +395,7 @@ class Registry(BfsSuite):
         tail = []
         for o, k, val in objs[-2:]:
             tail.append([_kname(k), val if val == UNSPEC else sorted(x.isoformat() for x in val), sorted(x.isoformat() for x in o.holidays),
-                         o.get('dt2int') is not None, dr.calendars.get(k) is o])
+                         o.t0.isoformat(), o.t1.isoformat(), o.get('dt2int') is not None, dr.calendars.get(k) is o])
         extra = [k for k in dr.calendars if k not in KEYS]
         if extra and nh:
             out.viol('registry-extra-key', 'history %s left unexpected keys %r in the registry' % (history, extra), op=history[-1][0])
@@ -396,7 +409,7 @@ def _expected_obs(hset):
     if hset not in _EXP:
         # the registry suite runs on its own range; the reference tables cover it (R_T0, R_T1 inside T0..T1)
         ref = Ref(set(IDX[h] for h in hset), [5, 6], 'm')
-        _EXP[hset] = [ref.is_bday(IDX[d]) for d in OBS_DAYS] + [DTS[ref.walk(IDX[t], 2)[2]] for t in OBS_ADD]
+        _EXP[hset] = [ref.is_bday(IDX[d]) for d in OBS_DAYS] + [DTS[ref.walk(IDX[t], 2)[n]] for n in (1, -1, 2) for t in OBS_ADD]
     return _EXP[hset]
 
 
